@@ -397,6 +397,17 @@ func (c *Check) slashInternals(s *Func, gBinding *Func) {
 		if len(pp.Stored) > 0 || pp.Path.Exit != ExitSuccess {
 			continue
 		}
+		// (a path that leaves before it has loaded the binding has slashed nothing and decides nothing: whether such an
+		// exit is admissible is the business of the guard rules, not of this one)
+		loaded := false
+		for _, ev := range pp.Path.Events {
+			if ev.Kind == EvCall && ev.CI.fn == gBinding {
+				loaded = true
+			}
+		}
+		if !loaded {
+			continue
+		}
 		decided := false
 		for _, fa := range pp.Facts {
 			if fa.T.ContainsOp(mdName) {
